@@ -162,7 +162,13 @@ def _limit_memory(gb):
     return f
 
 
-def rustc_compile(src_path, out_path, dump_dir, paths, timeout=300, opt=False):
+CPU_LIMIT_S = 60      # "within seconds": processor time of rustc (macro expansion included) for ONE small definition
+
+
+def rustc_compile(src_path, out_path, dump_dir, paths, timeout=300, opt=False, cpu_limit=None):
+    """cpu_limit: when given (a definition compiled alone after a time-out of its batch), the processor time of
+    rustc is measured (/usr/bin/time; independent of how loaded the machine is) and a compilation that needs more
+    than cpu_limit seconds of it is reported as return code -8."""
     env = dict(os.environ)
     env["LEXGEN_VERIF_DUMP"] = dump_dir
     cmd = ["rustc", "--edition", "2021", "-L", "dependency=" + paths["deps"],
@@ -170,10 +176,20 @@ def rustc_compile(src_path, out_path, dump_dir, paths, timeout=300, opt=False):
            "-C", "debuginfo=0", src_path, "-o", out_path]
     if opt:
         cmd[1:1] = ["-O"]
+    tfile = out_path + ".time"
+    if cpu_limit is not None:
+        cmd = ["/usr/bin/time", "-f", "%U %S", "-o", tfile] + cmd
     t0 = time.time()
     try:
         r = subprocess.run(cmd, env=env, stdout=subprocess.PIPE, stderr=subprocess.STDOUT, text=True,
                            timeout=timeout, errors="replace", preexec_fn=_limit_memory(8))
+        if cpu_limit is not None and r.returncode == 0:
+            try:
+                cpu = sum(float(x) for x in open(tfile).read().split()[-2:])
+            except (OSError, ValueError):
+                cpu = 0.0
+            if cpu > cpu_limit:
+                return -8, "SLOW: rustc needed %.0f s of processor time for this one definition (limit %d s)" % (cpu, cpu_limit), time.time() - t0
         return r.returncode, r.stdout, time.time() - t0
     except subprocess.TimeoutExpired:
         return -9, "TIMEOUT after %ds" % timeout, time.time() - t0
@@ -190,13 +206,13 @@ class Batch:
         self.compile_out = ""
         self.compile_s = 0.0
 
-    def build(self, paths, extra_parens=None, timeout=300, opt=False):
+    def build(self, paths, extra_parens=None, timeout=300, opt=False, cpu_limit=None):
         os.makedirs(os.path.join(self.dir, "dump"), exist_ok=True)
         src = os.path.join(self.dir, "prog.rs")
         with open(src, "w") as f:
             f.write(rust_program(self.defs, extra_parens))
         self.compile_rc, self.compile_out, self.compile_s = rustc_compile(
-            src, os.path.join(self.dir, "prog"), os.path.join(self.dir, "dump"), paths, timeout, opt)
+            src, os.path.join(self.dir, "prog"), os.path.join(self.dir, "dump"), paths, timeout, opt, cpu_limit)
         return self.compile_rc == 0
 
     def dump(self, lname):
@@ -336,6 +352,9 @@ def parse_dump(text):
             i += 1
         elif k == "TOKENS":
             res["tokens"] = ln[7:]
+            i += 1
+        elif k == "EXPANSION_CPU_MS":
+            res["expansion_cpu_ms"] = int(p[1])
             i += 1
         elif k == "GCODE":
             res.setdefault("gcode", []).append(ln)
